@@ -252,7 +252,7 @@ def build_clean_network(rng, N, families, class_jds, class_weights=None, assort=
     G.add_nodes_from(range(N))
     colnames = []
     for name, _, _ in families:
-        for nm in (name if isinstance(name, (list, tuple)) else [name]):
+        for nm in (name if isinstance(name, list) else [name]):
             if nm not in colnames:
                 colnames.append(nm)
     deg = [[0] * len(colnames) for _ in range(N)]
@@ -261,7 +261,7 @@ def build_clean_network(rng, N, families, class_jds, class_weights=None, assort=
         es = _shape_edges(families[t][1], vs)
         touched = {}
         for n_e, (a, b) in enumerate(es):
-            nm = name[n_e] if isinstance(name, (list, tuple)) else name
+            nm = name[n_e] if isinstance(name, list) else name
             G.add_edge(a, b)
             G.edges[a, b][NN.TOPOLOGY] = nm
             G.edges[a, b][NN.MOTIF_IDS] = mid
